@@ -49,7 +49,8 @@ class View:
             pk, rest = ref.split_stream(b)
             buf[conn] = rest
             for p in pk:
-                try: d = ref.decode(p)
+                # inbound packets: the receiver-side leniencies listed in DESIGN.md are not malformations for the monitors
+                try: d = ref.decode(p, lenient=True)
                 except ref.Malformed as e: d = {"type": "malformed", "why": str(e)}
                 self.inb.append(dict(i=i, conn=conn, dec=d, raw=p))
         self.tag2op = {o.payload: o for o in s.ops.values() if o.kind == "pub"}
